@@ -159,6 +159,20 @@ def _inline(expr, env, self_name):
     return Sub().visit(copy.deepcopy(expr))
 
 
+def _replace(tree, old, new):
+    """copy of ``tree`` with the node ``old`` (by identity) replaced by ``new``"""
+    import copy
+    if tree is old:
+        return copy.deepcopy(new)
+    out = copy.copy(tree)
+    for fld, val in ast.iter_fields(tree):
+        if isinstance(val, ast.AST):
+            setattr(out, fld, _replace(val, old, new))
+        elif isinstance(val, list):
+            setattr(out, fld, [_replace(v_, old, new) if isinstance(v_, ast.AST) else v_ for v_ in val])
+    return out
+
+
 class _Site:
     """atoms and guards of one function that takes a LoopRange (``rp``) and optionally an index (``xp``)"""
 
@@ -348,7 +362,22 @@ def range_from_count(ctx, fn, relpath, rp):
             continue
         ex = site.extractor(env)
         try:
-            a, e_, s_ = (ex.form(x_) for x_ in expr.args)
+            a, s_ = ex.form(expr.args[0]), ex.form(expr.args[2])
+            end_ast = _inline(expr.args[1], env, None)
+            clamps = [c_ for c_ in ast.walk(end_ast) if isinstance(c_, ast.Call) and isinstance(c_.func, ast.Name) and c_.func.id == 'max'
+                      and len(c_.args) == 2 and any(isinstance(z_, ast.Constant) and z_.value == 0 for z_ in c_.args)]
+            if len(clamps) == 1:
+                # range(a, a + max(n, 0)*s, s) visits what range(a, a + n*s, s) visits (n < 0: both are empty) -- provided the
+                # end really is a + max(n, 0)*s: with the clamp at 0 the end is a, and without it the end is a + n*s
+                n_ast = next(z_ for z_ in clamps[0].args if not (isinstance(z_, ast.Constant) and z_.value == 0))
+
+                e1 = ex.form(_replace(end_ast, clamps[0], n_ast))
+                e0 = ex.form(_replace(end_ast, clamps[0], ast.Constant(value=0)))
+                if not (RF.F_zero(RF.F_add(e0, a, -1)) and RF.F_zero(RF.F_add(RF.F_add(e1, e0, -1), RF.F_mul(ex.form(n_ast), s_), -1))):
+                    raise RF.NotNormal(f'clamped count in `{ast.unparse(end_ast)[:80]}` is not of the form start + max(n, 0)*step')
+                e_ = e1
+            else:
+                e_ = ex.form(end_ast)
         except RF.NotNormal as err:
             raise AnalysisError(f'C10 R1: {fn.name} ({relpath}:{st.lineno}): range() argument outside the normal form: {err}')
         if e_.pure and RF.P_atoms(e_.p0) <= {'stop'}:
@@ -504,6 +533,14 @@ def run(ctx):
 
 
 MUTANTS = [
+    Mutant('range-end-from-clamped-truncated-count', FILE,
+           "    if step < 0:\n        # Descending loop: the (inclusive) bound is the smallest value\n        return range(LEM(loop_range.start), ceil(LEM(loop_range.stop))-1, step)\n    return range(LEM(loop_range.start), floor(LEM(loop_range.stop))+1, step)",
+           "    start = LEM(loop_range.start)\n    count = max(int((LEM(loop_range.stop) - start) / step) + 1, 0)\n    return range(start, start + count * step, step)",
+           expect=('R1', 'range-end-from-count')),
+    Mutant('neutral-range-end-from-clamped-floor-count', FILE,
+           "    if step < 0:\n        # Descending loop: the (inclusive) bound is the smallest value\n        return range(LEM(loop_range.start), ceil(LEM(loop_range.stop))-1, step)\n    return range(LEM(loop_range.start), floor(LEM(loop_range.stop))+1, step)",
+           "    start = LEM(loop_range.start)\n    count = max((LEM(loop_range.stop) - start + step) // step, 0)\n    return range(start, start + count * step, step)",
+           expect=None),
     Mutant('count-drops-plus-one', SYMS, "        return Sum((Quotient(Sum((stop, Product((-1, start)))), step), IntLiteral(1)))",
            "        return Quotient(Sum((stop, Product((-1, start)))), step)", expect=('R4', 'count-formula'), quick=True),
     Mutant('count-ceil-fold-for-literals', SYMS, "        return Sum((Quotient(Sum((stop, Product((-1, start)))), step), IntLiteral(1)))",
